@@ -49,23 +49,34 @@ def unparse_invariance(ctx, mine):
         shutil.rmtree(tmp, ignore_errors=True)
 
 
-def rename_invariance(ctx):
-    """The same rules on a copy of the tree in which every function-local variable was renamed must give the same verdict."""
-    tmp = tempfile.mkdtemp(prefix="sa_rename_", dir=os.environ.get("VERIF_SCRATCH", "/tmp"))
-    try:
-        env = dict(os.environ, VERIF_REPO=ctx.repo)
-        r0 = subprocess.run([sys.executable, os.path.join(VERIF, "tools", "rename_locals.py"), tmp], env=env, capture_output=True, text=True, timeout=300)
-        if r0.returncode != 0:
-            return {"error": (r0.stderr or r0.stdout)[-300:]}
-        env = dict(os.environ, VERIF_REPO=tmp, VERIF_EVIDENCE_DIR=os.path.join(tmp, "ev"), PYTHONPATH=VERIF)
-        env.pop("VERIF_TIER", None)
-        r = subprocess.run([sys.executable, "-m", "sa.check", ctx.prop, "--tier", "quick"], cwd=VERIF, env=env, capture_output=True, text=True, timeout=900)
-        import re
-        rules_there = sorted(set(re.findall(r"rule (\S+) fails", r.stdout)))
-        known_there = sorted(set(re.findall(r"KNOWN-FINDING: property=\S+ (\S+)", r.stdout)))
-        return {"renamed": r0.stdout.strip()[-60:], "exit_on_renamed_tree": r.returncode, "unexpected_rules_failing_there": rules_there, "known_findings_there": known_there}
-    finally:
-        shutil.rmtree(tmp, ignore_errors=True)
+REFACTORS = (("rename_locals.py", "every function-local variable renamed"),
+             ("insert_noops.py", "a no-op statement inserted at the start of every function"),
+             ("swap_ifs.py", "every if/else rewritten as `if not C: <else> else: <then>`"))
+
+
+def refactor_invariance(ctx):
+    """The same rules on behaviour-preserving rewrites of the whole tree must give the same verdict."""
+    import re
+    out = {}
+    for tool, what in REFACTORS:
+        tmp = tempfile.mkdtemp(prefix="sa_refactor_", dir=os.environ.get("VERIF_SCRATCH", "/tmp"))
+        try:
+            env = dict(os.environ, VERIF_REPO=ctx.repo)
+            r0 = subprocess.run([sys.executable, os.path.join(VERIF, "tools", tool), tmp], env=env, capture_output=True, text=True, timeout=300)
+            if r0.returncode != 0:
+                out[tool] = {"what": what, "error": (r0.stderr or r0.stdout)[-300:]}
+                continue
+            env = dict(os.environ, VERIF_REPO=tmp, VERIF_EVIDENCE_DIR=os.path.join(tmp, "ev"), PYTHONPATH=VERIF)
+            env.pop("VERIF_TIER", None)
+            r = subprocess.run([sys.executable, "-m", "sa.check", ctx.prop, "--tier", "quick"], cwd=VERIF, env=env, capture_output=True, text=True, timeout=900)
+            out[tool] = {"what": what, "tool_says": r0.stdout.strip()[-70:], "exit_on_rewritten_tree": r.returncode,
+                         "rules_failing_there": sorted(set(re.findall(r"rule (\\S+) fails", r.stdout))),
+                         "known_findings_there": sorted(set(re.findall(r"KNOWN-FINDING: property=\\S+ (\\S+)", r.stdout)))}
+            if r.returncode != 0:
+                print(f"REFACTOR-INVARIANCE-DIFF {ctx.prop} {tool}: exit {r.returncode}")
+        finally:
+            shutil.rmtree(tmp, ignore_errors=True)
+    return out
 
 
 def extend(ctx, mod):
@@ -76,8 +87,7 @@ def extend(ctx, mod):
     ctx.extra["layout_invariance"] = inv
     if not inv.get("identical"):
         print(f"LAYOUT-INVARIANCE-DIFF {ctx.prop}: {json.dumps(inv)[:600]}")
-    rn = rename_invariance(ctx)
-    ctx.extra["local_rename_invariance"] = rn
+    ctx.extra["refactor_invariance"] = refactor_invariance(ctx)
     cat = [m for m in selftest.load_catalog() if m["prop"] == ctx.prop]
     res = selftest.run_many(cat, jobs=16)
     ctx.extra["selftest"] = {
